@@ -401,7 +401,7 @@ func defaultReturnsError(fn *ssa.Function) bool {
 		if falseLabels < nLabels {
 			continue
 		}
-		if k, ok := ret.Results[errIdx].(*ssa.Const); ok && k.Value == nil {
+		if k, ok := retResults(ret)[errIdx].(*ssa.Const); ok && k.Value == nil {
 			continue
 		}
 		return true
@@ -486,7 +486,7 @@ func ruleSchemaEnum(c *Ctx, r *Rep) {
 	for _, ret := range returnsOf(lookup) {
 		for _, g := range guardsOf(ret.Block()) {
 			if ex, ok := g.Cond.(*ssa.Extract); ok && ex.Index == 1 && !g.Truth {
-				if k, isK := ret.Results[1].(*ssa.Const); !(isK && k.Value == nil) {
+				if k, isK := retResults(ret)[1].(*ssa.Const); !(isK && k.Value == nil) {
 					okErr = true
 				}
 			}
